@@ -15,7 +15,7 @@ PROPS = {
         level="proof",
         min_obligations=60,
         replay_family="c14",
-        bounded=[dict(family="c14", what="to_value of derived Serialize impls == documented shape; from_value of the alternative encodings", bound="23 typed values + 8 alternative encodings")],
+        bounded=[dict(family="c14", what="to_value of derived Serialize impls == documented shape; from_value of the alternative encodings", bound="25 typed values + 11 alternative encodings")],
         explanation="serde-lexpr/src/value/ser.rs is extracted from /repo and every Serializer method and every collector (SerializeList, SerializeVector, "
                     "SerializeTupleVariant, SerializeMap, SerializeStruct, SerializeStructVariant: serialize_element/field/key/value/entry and end) is verified to build exactly "
                     "the documented shape as a function of the children's S-expressions: seq/set -> mk_list(items, ()), tuple/tuple struct -> Vector(items), map -> list of "
@@ -64,7 +64,7 @@ PROPS = {
         min_obligations=60,
         replay_family="c19",
         bounded=[dict(family="c19", what="every proper prefix of a datum that fails to parse fails with an EOF-category error; error locations in bounds; io::Error kinds",
-                      bound="35 datums x all proper prefixes (default options) + 7 datums x all prefixes (Emacs options) + 22 malformed texts x 2 option sets x 3 sources")],
+                      bound="35 datums x all proper prefixes (default options) + 7 datums x all prefixes (Emacs options) + 22 malformed texts x 2 option sets x 3 sources + reader failing at 4 offsets")],
         explanation="PROVED (Verus, unbounded): (location) every function that can return an error carries err_ok(r, input): a non-I/O error has a location that is "
                     "pos_line/pos_col of SOME PREFIX of the input (errors are only built by error()/peek_error()/read::error from Read::position/peek_position, which "
                     "are proved equal to the position of the consumed bytes [+ the byte under the cursor] for all three sources), and lemma_loc_in_bounds shows such a "
@@ -189,7 +189,7 @@ PROPS = {
         level="proof",
         min_obligations=25,
         replay_family="c08",
-        bounded=[dict(family="c08", what="documented reading of each option-governed token in 4 syntactic positions, compared with a table written from the documentation", bound="42 (token, option set) pairs x 4 positions")],
+        bounded=[dict(family="c08", what="documented reading of each option-governed token in 4 syntactic positions, compared with a table written from the documentation", bound="50 (token, option set) pairs x 4 positions + 6 non-numeric digit-initial tokens with the option off")],
         explanation="parse_token - the only place parser options are consulted - is extracted from /repo and verified against a declarative classifier written from "
                     "the property statement, one clause per option: letter-initial words (postfix keywords, nil under NilSymbol, t under TSymbol, else symbol, with the "
                     "token text = the bytes up to the first symbol terminator, decoded as UTF-8), `:name` under ColonPrefix, `#:name` under Octothorpe (error when off), "
@@ -202,9 +202,10 @@ PROPS = {
             "String::ends_with(':'), String::pop, String == &str are std: assumed specs over the char sequence (vx_ends_with_colon, vx_string_pop, vx_string_eq)",
             "char::is_alphabetic is an uninterpreted predicate",
             "Options::with_keyword_syntaxes (iterator fold with a closure) is not under contract",
-            "`a token is read as a number only if the whole token is a numeric literal` is NOT claimed: see not_covered",
+            "`a token is read as a number only if the whole token is a numeric literal`: proved for the leading-digit-symbols path (after fix 8ffb444); with the option "
+            "off the clause is violated on the real code and recorded as an open known finding (D7b), reported on every run",
         ],
-        not_covered=["whole-token numeric check of digit/sign-initial tokens (known defect D7: `1+`, `1/2`, `1.5.6` are read from a prefix; not decided here)",
+        not_covered=[
                      "expansion of quote shorthands into two-element lists is decided structurally by C10's Datum::quotation clause and Value::list's contract, not re-stated here"],
         trusted=STD_TRUST,
     ),
@@ -214,7 +215,7 @@ PROPS = {
         min_obligations=40,
         replay_family="c10",
         bounded=[dict(family="c10", what="next_value loop vs next_datum / value_iter / datum_iter / Iterator for Parser: same items, same error, same end; Ref walkers vs Value walkers",
-                      bound="49 texts (proper, dotted, bracketed, quoted, nested, truncated and malformed lists/vectors) x 5 option sets x 3 sources x 4 iteration styles")],
+                      bound="56 texts (proper, dotted, bracketed, quoted, nested, truncated and malformed lists/vectors) x 5 option sets x 3 sources x 4 iteration styles + 5 deep quotation/list nestings around the 128-level limit")],
         explanation="PROVED (Verus, unbounded): datum.rs is extracted from /repo: the span tree of every Datum the parser returns mirrors the value's shape "
                     "(shape_ok: established by Datum::primitive/vec/cons/quotation, by parse_vector_meta, and by parse_list_meta through its two &mut cursors "
                     "with a prophecy invariant; returned by next_datum/expect_datum); under that invariant datum::ListIter::next yields exactly what the "
@@ -238,7 +239,7 @@ PROPS = {
         replay_family="c11",
         bounded=[dict(family="c11", what="every sub-datum reachable through list_iter / vector_iter: inside its parent, after its predecessor, covered text re-parses to its value, "
                                          "quote heads cover the shorthand, identical spans from str / slice / reader",
-                      bound="29 texts (multi-line, non-ASCII, nested, dotted, quoted) x 2 option sets x 3 sources")],
+                      bound="33 texts (multi-line, non-ASCII, nested, dotted, quoted) x 2 option sets x 3 sources + reader failing at 4 offsets")],
         explanation="PROVED (Verus, unbounded): Read::position of all three sources (SliceRead::position_of_index loop, StrRead delegation, IoRead over "
                     "LineColIterator's counters and the position remembered in front of a peeked byte) equals pos_line/pos_col of the bytes CONSUMED so far, for every "
                     "input and every peek/next/discard history - so the three sources report identical positions; next_datum/expect_datum return a datum whose own "
@@ -257,7 +258,7 @@ PROPS = {
         replay_family="c12",
         bounded=[dict(family="c12", what="concatenation of printed values of every kind with every trivia string parses back to exactly those values (value_iter and datum_iter); "
                                          "the four iteration styles agree and terminate on malformed inputs",
-                      bound="12 values pairwise (1/3 sample) x 9 trivia strings x 4 placements + 13 malformed inputs")],
+                      bound="12 values pairwise (1/3 sample) x 9 trivia strings x 4 placements + 22 malformed inputs")],
         explanation="parse_whitespace is verified equal to the declarative trivia skipper skip_trivia (space, tab, CR, LF, FF and ;-comments incl. a "
                     "final comment without newline); the symbol scanners are verified against sym_run/sym_term, where sym_term is REQUIRED by the spec to "
                     "contain every trivia byte and every delimiter the printer can emit after a token, so inserting trivia at a token boundary cannot "
